@@ -204,6 +204,7 @@ type Engine struct {
 	synUnsat    int
 	regexps     map[*Obj]string
 	crossSeen   int
+	initSkipped []string
 	rng         *rand.Rand
 }
 
